@@ -5,7 +5,8 @@ Theorems about the Gallina reader model (coq/props/C14.v); the model is tied to 
 correspondence  text -> Gallina PEG parse -> reader model -> dictionary  vs  the real read_pil, on
 generated consistent systems (every notation, shuffled declaration-respecting orders, layouts), on a
 small-scope exhaustive family of short documents, on the C16 fault streams (so that error outcomes
-correspond too) and, with user classes in the reader slots and documents read before, on the registries.
+correspond too), with user classes in the reader slots and documents read before, on the registries, and after
+documents that re-declare the same names with another meaning were read and released in the same session.
 The oracle (harness/oracles/c14.py) states C14 directly on the implementation; it is used to find a
 failing input once a theorem or the correspondence has broken."""
 import itertools, json
@@ -59,6 +60,22 @@ def second_system(S, rng):
     return S2
 
 
+def released_history(S, rng):
+    """one or two documents to be read and RELEASED before a document of S in the same session: the names of S declared
+    with another meaning (gen_pil.permuted_names: domains, strands / composite domains, complexes and macrostates exchange
+    their names), sometimes with one fault (the read fails half-way)"""
+    docs = []
+    for _ in range(rng.randrange(1, 3)):
+        T = gen_pil.permuted_names(S, rng)
+        text = gen_pil.render(T, rng, layout=False, order=gen_pil.shuffled_order(T, rng))
+        if rng.random() < 0.25:
+            cs = c16mod.corruptions(rng, T, n_each=1)
+            if cs:
+                text = rng.choice(cs)[1]
+        docs.append(text)
+    return docs
+
+
 def _fixed(text, lengths, strands, complexes):
     doms = {}
     for n, L in lengths.items():
@@ -82,6 +99,8 @@ FIXED_SYSTEMS = [_fixed(
      "N": ("x b y y* b* x* a x b y y* b* x* y* b* x*", "((((((.))))))...")})]
 for _f in FIXED_SYSTEMS:
     del _f["stmts"]
+# ... after the same document with another composition of the composite domain was read and released
+FIXED_SYSTEMS[0]["released_before"] = [FIXED_SYSTEMS[0]["text"].replace("xby = x b y", "xby = y x b")]
 
 
 def system(rng, big=False):
@@ -132,7 +151,7 @@ def run(ctx):
         res["build"].excerpt = "translator gen_reader failed (fail-closed): " + genfail
     runner = ensure_model_runner()
     diffs, found, systems = [], [], {}
-    ocases = []
+    ocases, osys = [], []
     if runner.ok:
         # 1. consistent systems: every notation, shuffled orders, layouts
         reqs = []
@@ -154,6 +173,7 @@ def run(ctx):
                 S2 = second_system(S, rng)
                 oc["second"] = {"text": gen_pil.render(S2, order=order), "expected": gen_pil.expected(S2)}
                 ocases.append(oc)
+                osys.append(S)
         diffs += correspond(ctx, "consistent-systems", reqs)
         # 2. small scope: every short document over the pool
         pool = [POOL[i] for i in POOL_QUICK] if quick else POOL
@@ -259,6 +279,18 @@ def run(ctx):
                              "impl-other": sum(1 for k in idx if ires[k] is not True)}}
         ctx.add_eval(len(reqs), 2)
         diffs += bad
+        # 7. one session, documents read and RELEASED before: the names of the system declared with another meaning
+        #    (sometimes with a fault); the model reads the document in a fresh session - nothing may be remembered
+        reqs, ireqs = [], []
+        for k in range(50 if quick else 2500):
+            S = system(rng, big=(k % 6 == 0))
+            text, stmts = render_doc(S, rng, gen_pil.shuffled_order(S, rng), layout=(k % 3 == 0))
+            systems.setdefault(text, {"text": text, "stmts": stmts, "expected": gen_pil.expected(S)})
+            reqs.append(("read_pil_model", [text, None]))
+            ireqs.append(("read_pil_after_released", [released_history(S, rng), text, None]))
+        diffs += correspond(ctx, "after-released-documents", reqs, impl_reqs=ireqs)
+        for oc, S in zip(ocases, osys):        # the oracle states the same on its systems
+            oc["released_before"] = released_history(S, rng)
     ctx.cov["phase_s"]["correspond"] = round(_t.time() - t0 - ctx.cov["phase_s"]["prove"], 1)
     t1 = _t.time()
     # the property itself on the implementation (support for the witness search; run on every run)
@@ -276,7 +308,10 @@ def run(ctx):
                        "concentrations, macrostates, detailed and condensed reactions of every type), rendered in a random "
                        "declaration-respecting order with random layout, with and without `ignore`; every document of at most 3 "
                        "statements over a pool of 13 (quick) / 21 statements; the 30 single-fault corruption kinds and token "
-                       "mutations of C16; the same with user classes in the reader slots and a held earlier read; the model "
+                       "mutations of C16; the same with user classes in the reader slots and a held earlier read; generated "
+                       "systems after one or two documents that declare the same names with another meaning (names exchanged "
+                       "among domains / strands / complexes, sometimes with a fault) were read and released in the same session "
+                       "(op read_pil_after_released vs the model's fresh read); the model "
                        "chain text -> PEG parse -> reader model is compared with read_pil; distinct = distinct agreed results; "
                        "op reader_consistent: the computed consistency (hypothesis of C14_reader_builds) is True on every generated "
                        "system of every notation, and on corrupted systems consistent (model) implies read (implementation)")
@@ -287,6 +322,12 @@ def run(ctx):
         cases = []
         for d in ds[:6]:
             op, arg = d[1]
+            if op == "read_pil_after_released":
+                if arg[1] in systems:
+                    c = {k: v for k, v in systems[arg[1]].items() if k != "stmts"}
+                    c["released_before"] = arg[0]
+                    cases.append(c)
+                continue
             text = arg[0] if op == "read_pil_model" else arg[4]
             ign = arg[1] if op == "read_pil_model" else arg[5]
             key = text if not ign else text + "\0" + ",".join(ign)
@@ -317,8 +358,12 @@ def run(ctx):
 
 def witness(f):
     c = f["case"]
+    before = ""
+    if c.get("released_before") and f["what"].startswith("released-before"):
+        before = ("import gc\nfor e in " + repr(c["released_before"]) + ":\n    try: read_pil(e)\n    except Exception: pass\n"
+                  "    gc.collect()\n")
     return {"key": {"what": f["what"].split(":")[0]}, "input": c, "what": f["what"],
-            "snippet": "from dsdobjects.objectio import *; set_io_objects(); out = read_pil(" + repr(c["text"]) +
+            "snippet": "from dsdobjects.objectio import *; set_io_objects()\n" + before + "out = read_pil(" + repr(c["text"]) +
                        (", ignore=" + repr(c["ignore"]) if c.get("ignore") else "") + ")"}
 
 
